@@ -31,8 +31,196 @@ class Und(Exception):
     pass
 
 
+def walk_cases(fn, start, header, valfn, cases):
+    """effect signatures of the loop body from `start`, one per abstract case; valfn(cond, case) evaluates a branch test"""
+    te, cfg = fn.terms, fn.cfg
+    body = cfg.loop_headers[header]
+    outer = [h for h, b in cfg.loop_headers.items() if header in b and h != header]
+
+    def effects_of(b):
+        eff = []
+        for st in fn.blocks[b]["stmts"]:
+            if st["k"] == "assign" and not st["lhs"]["proj"] and fn.local_name(st["lhs"]["l"]):
+                rv = st["rv"]
+                if rv["k"] == "use" and rv["op"]["k"] == "const" and rv["op"].get("ty") == "bool":
+                    eff.append(("set", fn.local_name(st["lhs"]["l"]), rv["op"].get("val")))
+        t = fn.blocks[b]["term"]
+        if t["k"] == "call":
+            nm = ((t.get("fn") or {}).get("def") or "").split("::")[-1]
+            if nm not in PURE:
+                dn = fn.local_name(t["dest"]["l"]) if not t["dest"]["proj"] else None
+                eff.append(("call", nm, dn))
+        return eff
+
+    def sig(case):
+        res = set()
+
+        def go(b, eff, seen, depth):
+            if depth > 60 or len(res) > 64:
+                raise Und("path explosion")
+            eff = eff + effects_of(b)
+            t = fn.blocks[b]["term"]
+            if t["k"] == "return":
+                res.add((tuple(eff), "return"))
+                return
+            if t["k"] == "switch":
+                v = valfn(te.switch_term[b][0], case)
+                if v is not None:
+                    tg = [x for vv, x in t["targets"] if int(vv) == v]
+                    nxts = [tg[0]] if tg else [t["otherwise"]]
+                else:
+                    nxts = [x for _, x in t["targets"]] + [t["otherwise"]]
+            else:
+                nxts = list(cfg.succ[b])
+            for s_ in nxts:
+                if fn.blocks[s_]["term"]["k"] == "unreachable":
+                    continue
+                if s_ == header:
+                    res.add((tuple(eff), "next-literal"))
+                elif s_ in outer:
+                    res.add((tuple(eff), "next-clause"))
+                elif s_ not in body:
+                    e2, x, n = list(eff), s_, 0
+                    end = "leave-loop"
+                    while n < 12:
+                        e2 += effects_of(x)
+                        succ = [y for y in cfg.succ[x] if fn.blocks[y]["term"]["k"] != "unreachable"]
+                        if len(succ) == 1 and succ[0] in outer:
+                            end = "next-clause"
+                            break
+                        if len(succ) != 1 or len(cfg.pred[succ[0]]) != 1 or fn.blocks[x]["term"]["k"] == "switch":
+                            break
+                        x = succ[0]
+                        n += 1
+                    res.add((tuple(e2), end))
+                elif s_ in seen:
+                    continue
+                else:
+                    go(s_, eff, seen | {s_}, depth + 1)
+        go(start, [], {start}, 0)
+        return frozenset(res)
+    return {c: sig(c) for c in cases}
+
+
+def pp(x):
+    return sorted((" ".join("%s:%s" % (e[0], e[1]) for e in effs) or "nothing") + " → " + end for effs, end in x)
+
+
+def total_assignment_site(prog):
+    """Cnf::eval: the literal's variable is looked up in a total assignment (a slice of bool)"""
+    fn = prog.find1(name="eval", self_adt="repr::cnf::Cnf", unit="rsdd-lib")
+    te, cfg = fn.terms, fn.cfg
+    idx = [cs for cs in te.calls if cs.callee.name == "index" and len(cs.args) == 2 and strip(cs.args[0]) == ("param", 2)
+           and "label(" in show(cs.args[1]) and "next(" in show(cs.args[1])]
+    key = "%s:literal-status" % fn.npath
+    if len(idx) != 1:
+        raise CheckerError("LC: assignment lookup in Cnf::eval not found (%d)" % len(idx))
+    g = idx[0]
+    loops = sorted([h for h, body in cfg.loop_headers.items() if g.bb in body], key=lambda h: len(cfg.loop_headers[h]))
+    header = loops[0]
+
+    def valfn(c, case):
+        a, p = case
+        c = strip(c)
+        if mir.is_call(c, "polarity"):
+            return p
+        if mir.is_call(c, "index") and strip(c[2][0]) == ("param", 2):
+            return a
+        if c[0] == "deref":
+            return valfn(c[1], case)
+        if c[0] == "bin" and c[1] in ("Eq", "Ne"):
+            x, y = valfn(c[2], case), valfn(c[3], case)
+            if x is None or y is None:
+                return None
+            return int((x == y) == (c[1] == "Eq"))
+        if c[0] == "un" and c[1] == "Not":
+            x = valfn(c[2], case)
+            return None if x is None else 1 - x
+        return None
+    try:
+        S = walk_cases(fn, fn.blocks[g.bb]["term"]["target"], header, valfn, [(a, p) for a in (0, 1) for p in (0, 1)])
+    except Und as e:
+        return inst("LC", key, UNDECIDED, fn, g.line, str(e))
+    errs = []
+    if S[(0, 0)] != S[(1, 1)]:
+        errs.append("a true literal is treated differently by polarity: ¬x under x=false does %s, x under x=true does %s" % (pp(S[(0, 0)]), pp(S[(1, 1)])))
+    if S[(0, 1)] != S[(1, 0)]:
+        errs.append("a false literal is treated differently by polarity")
+    marks = lambda x: any(any(e[0] == "set" and e[2] == "1" for e in effs) for effs, _ in x)
+    if not errs and not marks(S[(1, 1)]):
+        errs.append("a true literal does not mark its clause as satisfied (does %s)" % pp(S[(1, 1)]))
+    if not errs and marks(S[(0, 1)]):
+        errs.append("a false literal marks its clause as satisfied")
+    return inst("LC", key, VIOLATION if errs else OK, fn, g.line,
+                errs[0] if errs else "true literal → %s; false literal → %s" % (pp(S[(1, 1)]), pp(S[(0, 1)])))
+
+
+def conditioning_site(prog):
+    """Cnf::condition(lit): a clause literal l is compared with the conditioning literal: same literal → the clause is
+    dropped; complementary literal → l is dropped; any other literal → kept"""
+    fn = prog.find1(name="condition", self_adt="repr::cnf::Cnf", unit="rsdd-lib")
+    te, cfg = fn.terms, fn.cfg
+    key = "%s:literal-status" % fn.npath
+    labs = [cs for cs in te.calls if cs.callee.name == "label" and "next(" in show(cs.args[0])]
+    if not labs:
+        raise CheckerError("LC: Cnf::condition compares no clause literal")
+    g = min(labs, key=lambda c: cfg.rpo_index[c.bb])
+    loops = sorted([h for h, body in cfg.loop_headers.items() if g.bb in body], key=lambda h: len(cfg.loop_headers[h]))
+    header = loops[0]
+    # start at the first block of the loop body: the Some edge of the iterator
+    sw = fn.blocks[header]["term"]["target"]
+    start = [t for v, t in fn.blocks[sw]["term"]["targets"] if v == "1"][0]
+
+    def side(t):
+        s_ = show(strip(t))
+        return "l" if "next(" in s_ else ("lit" if "arg2" in s_ else None)
+
+    def valfn(c, case):
+        same, lp, p = case
+        c = strip(c)
+        if (c[0] == "bin" and c[1] in ("Eq", "Ne")) or (c[0] == "call" and c[1].name in ("eq", "ne") and len(c[2]) == 2):
+            a, b = (c[2], c[3]) if c[0] == "bin" else (c[2][0], c[2][1])
+            eq = (c[1] == "Eq") if c[0] == "bin" else (c[1].name == "eq")
+            sa, sb = strip(a), strip(b)
+            if mir.is_call(sa, "label") and mir.is_call(sb, "label") and {side(sa), side(sb)} == {"l", "lit"}:
+                return int(bool(same) == eq)
+            if mir.is_call(sa, "polarity") and mir.is_call(sb, "polarity") and {side(sa), side(sb)} == {"l", "lit"}:
+                return int((lp == p) == eq)
+            if {side(sa), side(sb)} == {"l", "lit"} and "label" not in show(sa) and "polarity" not in show(sa):
+                # whole-literal comparison
+                return int((bool(same) and lp == p) == eq)
+        if c[0] == "un" and c[1] == "Not":
+            x = valfn(c[2], case)
+            return None if x is None else 1 - x
+        return None
+    cases = [(sm, lp, p) for sm in (0, 1) for lp in (0, 1) for p in (0, 1)]
+    try:
+        S = walk_cases(fn, start, header, valfn, cases)
+    except Und as e:
+        return inst("LC", key, UNDECIDED, fn, g.line, str(e))
+    errs = []
+    same_lit = {S[(1, 0, 0)], S[(1, 1, 1)]}
+    compl = {S[(1, 0, 1)], S[(1, 1, 0)]}
+    other = {S[(0, a, b)] for a in (0, 1) for b in (0, 1)}
+    pushes = lambda x: any(any(e[0] == "call" and e[1] == "push" for e in effs) for effs, _ in x)
+    ends = lambda x: {end for _, end in x}
+    if len(same_lit) != 1 or len(compl) != 1 or len(other) != 1:
+        errs.append("the treatment of a clause literal depends on more than its relation to the conditioning literal "
+                    "(same: %s, complementary: %s, other: %s)" % ([pp(x) for x in same_lit], [pp(x) for x in compl], [pp(x) for x in other]))
+    else:
+        sl, cl, ot = same_lit.pop(), compl.pop(), other.pop()
+        if pushes(sl) or ends(sl) != {"next-clause"}:
+            errs.append("a clause containing the conditioning literal is not dropped (does %s)" % pp(sl))
+        if pushes(cl) or ends(cl) != {"next-literal"}:
+            errs.append("the complement of the conditioning literal is not simply removed from its clause (does %s)" % pp(cl))
+        if not pushes(ot) or ends(ot) != {"next-literal"}:
+            errs.append("a literal on another variable is not kept (does %s)" % pp(ot))
+    return inst("LC", key, VIOLATION if errs else OK, fn, g.line,
+                errs[0] if errs else "same literal → clause dropped; complementary → literal dropped; other → kept")
+
+
 def run(prog):
-    out = []
+    out = [total_assignment_site(prog), conditioning_site(prog)]
     for name, owner in SITES:
         fns = [f for f in prog.lib_fns if f.name == name and (f.impl_self == owner or (f.in_trait or "").startswith(owner)
                                                                 or owner in f.npath)]
